@@ -31,7 +31,7 @@ MANIFEST = {
     'text': 'All payloads up to the bound, all partitions, spellings, extensions, trailers and buffer sizes are encoded '
             'by an independent encoder and decoded by the real code under every short-read pattern; every strict '
             'prefix must be rejected until the terminating chunk line is complete, a corrupted CRLF after chunk data '
-            'must be rejected, and every other single-byte framing corruption must give a body or a client error.',
+            'must be rejected, and every other single-byte framing corruption must give a body or a client error. An accepted corruption must present the whole payload, or the chunks before a damaged size line that reads as zero.',
     'note': 'Bounds: payload <= 4 bytes (quick) / 5, and 6 without corruptions (thorough) in all partitions plus 10/26-byte chunks for hex '
             'letters; substitutes from a 9-byte alphabet. Trusted: CPython, the reference encoder, frame-local merging.',
 }
